@@ -50,7 +50,7 @@ package sample
 //@   requires rand != nil && group != nil
 //@   modifies hstate(rand)
 //@   allocates
-//@   ensures result != nil
+//@   ensures result != nil && fresh(result)
 //@   summary scval(result) == sc_from(old(hstate(rand))) && hstate(rand) == hadv(old(hstate(rand)))
 
 //@ func ScalarUnit
@@ -60,12 +60,12 @@ package sample
 //@   modifies hstate(rand)
 //@   summary scval(result) == scu_from(old(hstate(rand))) && hstate(rand) == hadvu(old(hstate(rand)))
 //@   allocates
-//@   ensures result != nil
+//@   ensures result != nil && fresh(result)
 
 //@ func ScalarPointPair
 //@   nopanic[C05]
 //@   requires rand != nil && group != nil
 //@   modifies hstate(rand)
 //@   allocates
-//@   ensures result0 != nil && result1 != nil
+//@   ensures result0 != nil && result1 != nil && fresh(result0) && fresh(result1)
 //@   ensures scval(result0) == sc_from(old(hstate(rand))) && hstate(rand) == hadv(old(hstate(rand))) && ptval(result1) == act(scval(result0), gen())
